@@ -12,6 +12,10 @@ CHECKS = {
    note="trusted: scheduler model of sync.RWMutex (cross-checked by TryLock on every grant), porcupine, the reference model (ids are constrained to be fresh, not predicted)", ref="3/C15"),
 }
 
+CHECKS["C07"] = dict(engine="E2", level="exploration", technique="deterministic simulation: seeded scheduler decides every interleaving at lock granularity; deadlock = no runnable client; argument-fault injection",
+   text="Every call is executed on a simulated client: the scheduler owns every RWMutex acquisition (hook H1), so a self-deadlock or a lock-order inversion is decided (some client live, none runnable), a busy loop hits the step budget / watchdog and a panic is recovered and reported. Sequential histories draw operands from an adversarial domain on MemFS, OrefaFS, RoFS, BasePathFS and FailFS; concurrent programs of 2-4 clients explore seeded interleavings (uniform, sticky-with-preemption, round-robin, PCT). Sampling, not proof.",
+   note="trusted: scheduler model of sync.RWMutex (TryLock cross-check), the 20 s no-event watchdog as the definition of a busy loop, sizes bounded to 1 MiB", ref="3/C07")
+
 NA = {
  "C13": "Clean, Join, Split, Dir, Base, IsAbs, Rel, Abs, FromSlash, ToSlash, VolumeName, Match and PathIterator are pure functions of their string arguments and the OS-type constant: there is no schedule, clock, I/O, fault or shared state for a simulator to control; generating strings is input fuzzing, a different technique (DESIGN.md section 4).",
 }
